@@ -2,6 +2,10 @@
 
 package exit
 
+//@ ghost var c17delta int
+//@ ghost var c17ins int
+//@ ghost var c17rm int
+
 // Machine-checked contracts for /verif (govc). Comment-only, compiled only
 // with -tags verif; changes no behaviour.
 //
@@ -39,12 +43,28 @@ package exit
 //@ requires domainAllowed ==> (exists k in 0..len(h.cfg.AllowedDomains): patMatch(h.cfg.AllowedDomains[k], destAddr))
 
 //@ func (*Handler).HandleStreamOpen
-//@ prop C19
-//@ modifies *
+//@ prop C19 C17
+//@ modifies *, c17delta
+//@ ghostinit c17delta = 0
+//@ after call (*Int64).Add set c17delta = c17delta + $1
+//@ ensures[C17] c17delta == 0
 
 //@ func (*Handler).handleStreamOpenAsync
-//@ prop C19
-//@ modifies *
+//@ prop C19 C17 C16
+//@ modifies *, c17delta, c17ins
+//@ ghostinit c17delta = 0
+//@ ghostinit c17ins = 0
+//@ after call (*Int64).Add set c17delta = c17delta + $1
+//@ after call removeConnection set c17delta = c17delta + ite($ret != nil, -1, 0)
+//@ at call WriteStreamOpenAck set c17ins = 1
+//@ at[C17] call WriteStreamOpenAck assert c17delta == 1
+//@ at[C17] call removeConnection assert $1 == streamID && c17ins == 1
+//@ at[C17] call readLoop assert c17delta == 1 && c17ins == 1
+//@ ensures[C17] c17ins == 0 ==> c17delta == 0
+//@ ensures[C17] c17ins == 1 ==> c17delta == 1 || c17delta == 0
+//@ after call Lock#0 let hadBefore = has(h.connections, streamID)
+//@ at[C16,C17] call (*Int64).Add assert !hadBefore
+//@ note C17: no path that ends before the connection is registered touches the counter; a registered connection holds exactly one slot, which the failure path after registration returns through removeConnection (its contract couples counter and map). C16/C17: the last guard says the slot and the map entry are taken for a stream id that is not in use; it is a recorded known finding (ids of different peers collide)
 //@ requires domainAllowed ==> (exists k in 0..len(h.cfg.AllowedDomains): patMatch(h.cfg.AllowedDomains[k], destAddr))
 //@ after call (*Handler).isAllowed let okByRoute = $ret && (exists j in 0..len(h.cfg.AllowedRoutes): ipInNet(h.cfg.AllowedRoutes[j], ip))
 //@ at call DialContext assert (domainAllowed && old(exists k in 0..len(h.cfg.AllowedDomains): patMatch(h.cfg.AllowedDomains[k], destAddr))) || okByRoute
@@ -106,3 +126,24 @@ package exit
 //@ after call Decrypt let pt = $ret0
 //@ at call net.Conn.Write assert $1 == pt && $0 == conn0 && ac == h.connections[streamID]
 //@ census[C07] net.Conn.Write in (*Handler).HandleStreamData
+
+// ---- C17: the exit's connection counter moves only together with its connection map ----
+//
+// A slot is taken exactly when a connection is registered and given back exactly when a registered
+// connection is removed; HandleStreamOpen only reads the counter. ghost c17delta = net change this
+// call made to the counter, c17ins = 1 once the call has registered its connection.
+
+//@ guarded Handler.mu: connections
+
+//@ func (*Handler).removeConnection
+//@ prop C17 C16
+//@ modifies *, c17rm
+//@ check lockset
+//@ ghostinit c17rm = 0
+//@ after call (*Int64).Add set c17rm = c17rm + $1
+//@ after call Lock let had = has(h.connections, streamID)
+//@ at call Unlock assert !has(h.connections, streamID)
+//@ at call Unlock assert forall k uint64: k != streamID ==> (has(h.connections, k) <==> old(has(h.connections, k)))
+//@ ensures had ==> c17rm == -1
+//@ ensures !had ==> c17rm == 0 && result == nil
+//@ note C16: removal touches no other stream's entry (second guard: evaluated against the map as of function entry is not possible across the lock, so it is stated at release against the state read at acquire)
